@@ -46,6 +46,15 @@ CHECKS = {
     "C17": dict(level="exploration", tech="runtime monitoring of LoadRecursively / Equals on generated inputs: round trip against the generator's own value, independent re-statement of the validity rules, single-constraint corruptions, reflection-driven single-field mutator for Equals",
                 text="Generated YAML trees over all fields, 10 corruption kinds, every field x every applicable edit operator; an unknown field kind makes the run inconclusive instead of being skipped.", ref="4 C17",
                 note="Trusted base: yaml.v2 for emitting the input files; reflection enumerates the fields so future fields are included."),
+    "C18": dict(level="exploration", tech="runtime monitoring with REAL processes: every task command dumps its complete environment and rendered arguments; read back through the real FileOutputStore and compared with the three-level expectation",
+                text="Names over every subset of the three levels (incl. prefix-related names), hostile values, concurrent jobs with per-job variables, missing-variable and reserved-variable cases.", ref="4 C18",
+                note="Trusted base: /proc-free; the dump command is the harness binary re-executed by the real PgidExecutor. Template values use a shell-safe alphabet."),
+    "C19": dict(level="exploration", tech="runtime monitoring with REAL processes: deterministic tagged byte-stream generator as task command, byte-exact comparison (length, SHA-256, first differing offset) of FileOutputStore.Reader and GET /job/logs with the recomputed streams",
+                text="Sizes 0..8 MiB, binary and line-structured payloads, several commands per task, concurrent tasks and jobs, failing and canceled writers (prefix property), hostile task names.", ref="4 C19",
+                note="Trusted base: the generator is re-run in the harness to recompute the expected streams; stdout and stderr are compared separately."),
+    "C20": dict(level="exploration", tech="runtime monitoring with REAL process trees: /proc scan for per-job environment markers at the instant the canceled job is first observed finished and after the kill timeout; heartbeat-clock bound",
+                text="16 tree shapes x 3 cancel instants x CancelJob / forced Shutdown x other jobs alongside; three shapes are known findings (processes that outlive the report by at most the kill timeout), everything surviving the kill timeout is a violation for every shape.", ref="4 C20",
+                note="Trusted base: /proc (environ, stat) of this container; processes that leave the process group are excluded by the statement."),
 }
 
 NOT_YET = "check not built yet (framework under construction; see DESIGN.md section 4)"
